@@ -57,6 +57,10 @@ type Env struct {
 	pb     *val.TupleBuilder
 	kpad   []byte
 	vpad   []byte
+	// Enc (C13): values are exchanged as codes 2*v+nc; nc=1 is the same row stored
+	// non-canonically (the trailing NULL pad field kept: | v | off1 | count=2 |),
+	// which no TupleBuilder produces. The pad column is then nullable and NULL.
+	Enc bool
 }
 
 func NewEnv(kw, vw int) *Env {
@@ -77,6 +81,25 @@ func NewEnv(kw, vw int) *Env {
 	}
 	return e
 }
+
+// NewEnvEnc: like NewEnv(kw, 0) with a nullable, always-NULL pad column in the value and
+// values exchanged as codes 2*v+nc (see Env.Enc).
+func NewEnvEnc(kw int) *Env {
+	e := NewEnv(kw, 0)
+	e.vd = val.NewTupleDescriptor(val.Type{Enc: val.Int64Enc}, val.Type{Enc: val.ByteStringEnc, Nullable: true})
+	e.vb = val.NewTupleBuilder(e.vd, e.Ns)
+	e.Enc = true
+	return e
+}
+
+// FreshDescs returns separately allocated descriptors Equal to the environment's.
+func (e *Env) FreshDescs() (*val.TupleDesc, *val.TupleDesc) {
+	kd := val.NewTupleDescriptor(val.Type{Enc: val.Uint32Enc}, val.Type{Enc: val.Uint32Enc}, val.Type{Enc: val.ByteStringEnc})
+	vd := val.NewTupleDescriptor(val.Type{Enc: val.Int64Enc}, val.Type{Enc: val.ByteStringEnc, Nullable: true})
+	return kd, vd
+}
+
+func (e *Env) Descs() (*val.TupleDesc, *val.TupleDesc) { return e.kd, e.vd }
 
 func (e *Env) Key(k int) val.Tuple {
 	e.kb.PutUint32(0, uint32(k/W))
@@ -99,6 +122,26 @@ func (e *Env) Pre(a int) val.Tuple {
 }
 
 func (e *Env) Val(v int) val.Tuple {
+	if e.Enc {
+		e.vb.PutInt64(0, int64(v/2))
+		t, err := e.vb.Build(e.Ctx, e.Ns.Pool()) // pad left NULL: trimmed, count = 1
+		if err != nil {
+			panic(err)
+		}
+		if v%2 == 0 {
+			return t
+		}
+		if t.Count() != 1 {
+			panic("canonical value tuple expected to have one field")
+		}
+		// hand-crafted: the same field bytes, an explicit (empty = NULL) second field
+		data := t[:len(t)-2]
+		nc := make([]byte, 0, len(data)+4)
+		nc = append(nc, data...)
+		nc = append(nc, byte(len(data)), byte(len(data)>>8)) // offset of field 1
+		nc = append(nc, 2, 0)                                // field count
+		return val.Tuple(nc)
+	}
 	e.vb.PutInt64(0, int64(v))
 	e.vb.PutByteString(1, e.vpad)
 	t, err := e.vb.Build(e.Ctx, e.Ns.Pool())
@@ -116,6 +159,13 @@ func (e *Env) KeyOf(t val.Tuple) int {
 
 func (e *Env) ValOf(t val.Tuple) int {
 	v, _ := e.vd.GetInt64(0, t)
+	if e.Enc {
+		nc := 0
+		if t.Count() > 1 {
+			nc = 1
+		}
+		return 2*int(v) + nc
+	}
 	return int(v)
 }
 
